@@ -5,6 +5,7 @@ import (
 	"sort"
 	"strings"
 	"sync"
+	"sync/atomic"
 	"testing"
 	"testing/synctest"
 
@@ -195,6 +196,7 @@ type caseRun struct {
 	top     krt.Collection[Out] // the observed collection: der, or a collection chained behind it
 	derIdx  krt.Index[string, Out]
 	lateIdx krt.Index[string, Out]
+	gate    atomic.Pointer[chan struct{}] // exact stream: holds the queue worker inside the transformation of input `zz`
 	subs    map[string]*subscriber
 	psubs   map[string]*subscriber
 	dsubs   map[string]*subscriber
@@ -279,6 +281,16 @@ func newCaseRun(t Transform, flagged bool) *caseRun {
 }
 
 // fetchFn is the fetch function handed to outputs(): krt.Fetch on the source of fetch number n.
+// hold blocks the collection's queue worker at the end of the transformation of the blocker input
+// while a gate is installed (the results were computed before blocking).
+func (c *caseRun) hold(i Obj) {
+	if i.Name == "zz" {
+		if g := c.gate.Load(); g != nil {
+			<-*g
+		}
+	}
+}
+
 func (c *caseRun) fetchFn(ctx krt.HandlerContext, i Obj) func(n int, f []Atom) []Obj {
 	return func(n int, f []Atom) []Obj {
 		src := c.srcA
@@ -309,10 +321,12 @@ func (c *caseRun) start() {
 	}
 	if t.Multi {
 		c.der = krt.NewManyCollection[Obj, Out](c.prim, func(ctx krt.HandlerContext, i Obj) []Out {
+			defer c.hold(i)
 			return outputs(t, i, c.fetchFn(ctx, i))
 		}, krt.WithStop(c.stop), krt.WithName("derived"))
 	} else {
 		c.der = krt.NewCollection[Obj, Out](c.prim, func(ctx krt.HandlerContext, i Obj) *Out {
+			defer c.hold(i)
 			o := outputs(t, i, c.fetchFn(ctx, i))
 			if len(o) == 0 {
 				return nil
